@@ -207,7 +207,7 @@ func (ctrler *RigoApp) InitChain(req abcitypes.RequestInitChain) abcitypes.Respo
 			addr, addr, // self staking
 			val.Power,
 			1,
-			bytes.ZeroBytes(32), // 0x00... txhash
+			crypto.DefaultHash(addr), // genesis stakes have no tx; ids must still be unique (they key the unbonding ledger)
 		)
 		initStakes[i] = &stake.InitStake{
 			pubBytes,
